@@ -230,7 +230,7 @@ def check_wiring(ctx, p, sp, where):
     pair, site = R.rho_mats(rho)
     for (i, j), (a, b) in G.pairs(types):
         ctx.hook('wiring.pair')
-        sig = (sp['d'][a] + sp['d'][b]) / 2.0
+        sig = sp.get('sigma_table', {}).get(G.pk(a, b), (sp['d'][a] + sp['d'][b]) / 2.0)      # the System's contact distance of that pair
         ps = sp['pot'][G.pk(a, b)]
         clo = p.sys.closure[G.lab(sp, a), G.lab(sp, b)]
         if abs(clo.sigma - sig) > R.CONTACT_TOL:
@@ -357,6 +357,13 @@ def run_snapshot(ctx, case):
     sp['labels'] = G.choose_labels(rng, sp['types'])
     originals = []
     s = G.build(sp, originals=originals)
+    sp['sigma_table'] = {}
+    if len(sp['types']) > 1 and rng.random() < 0.3:
+        # non-additive mixture: the user writes a cross contact distance into the System's public sigma table
+        a, b = sp['types'][0], sp['types'][1]
+        val = float(G.sigma_of(sp, a, b) + rng.choice([1, 2]) * sp['dr'])
+        s.diameter.sigma[G.lab(sp, a), G.lab(sp, b)] = val
+        sp['sigma_table'][G.pk(a, b)] = val
     # the user keeps the objects he assigned and goes on editing them (re-using one potential object for the next pair
     # or System): the tables hold copies, so the System - and everything built from it - must not notice
     for obj in originals:
